@@ -11,7 +11,9 @@ from concurrent.futures import ProcessPoolExecutor
 
 IMPL = re.compile(r'^[sd][0-9]{10}\.c$')      # restated from the documentation, not read from the code
 NEAR = ['s0000000001.c', 'd0000000002.c', 'x0000000001.c', 'S0000000001.c', 's000000001.c', 's00000000001.c', 's000000000a.c', 's0000000001.h',
-        's0000000001.cc', 's0000000001.c~', 'datasegments', 'out.h', 'other.c', 'ss000000001.c', 'd00000000010c', 's0000000001.C', 'd-000000001.c', 'd0000000009.c.bak']
+        's0000000001.cc', 's0000000001.c~', 'datasegments', 'out.h', 'other.c', 'ss000000001.c', 'd00000000010c', 's0000000001.C', 'd-000000001.c', 'd0000000009.c.bak',
+        # 13 characters, s/d in front, .c at the end, but a dot / a blank / a sign inside the ten-character field
+        'd2024.01.02.c', 's00000000.c.c', 's.123456789.c', 's 000000001.c', 'd+000000001.c', 's0x00000001.c', 'd00000000.1.c']
 LONGDIR = 'L' * 250        # < NAME_MAX, but the directory PART of the output path is then longer than 255 bytes
 
 
@@ -36,6 +38,11 @@ def populate(root, variant):
     for d in ('in', 'cwd', 'out', 'out/sub', 'out/sub.d', 'elsewhere', 'out/' + LONGDIR, 'out/' + LONGDIR + '/' + 'M' * 60):
         os.makedirs(os.path.join(root, d), exist_ok=True)
     os.symlink('out', os.path.join(root, 'lnk'))
+    if variant == 2:
+        # the output file of an earlier run is a symbolic link to a file in ANOTHER directory (out/out.c -> ../elsewhere/real.c)
+        with open(os.path.join(root, 'elsewhere', 'real.c'), 'w') as f:
+            f.write('target of the link out/out.c\n')
+        os.symlink('../elsewhere/real.c', os.path.join(root, 'out', 'out.c'))
     dirs = ['out', 'out/sub', 'out/sub.d', 'elsewhere', 'cwd', 'out/' + LONGDIR, 'out/' + LONGDIR + '/' + 'M' * 60]
     for di, d in enumerate(dirs):
         for ni, n in enumerate(NEAR):
@@ -59,14 +66,22 @@ OUTSHAPES = [('out', 'out.c'), ('out', './out.c'), ('out', '../out/out.c'), ('ou
 def model(root, cwd, outpath, opts):
     """allowed effects: (dir, set of allowed created/overwritten names or pattern, deletions allowed?)"""
     p = outpath.replace('ABS', root)
-    full = os.path.realpath(os.path.join(root, cwd, p))
-    outdir = os.path.dirname(full)
-    base = os.path.basename(full)
+    # the directory part is resolved physically, the file name is taken as given: the output file itself may be a symbolic link (a re-run
+    # over a linked file writes THROUGH the link, everything else still belongs into the directory of the path that was given)
+    lex = os.path.join(root, cwd, p).rstrip('/')
+    outdir = os.path.realpath(os.path.dirname(lex))
+    base = os.path.basename(lex)
     stem = base[:base.rindex('.')] if '.' in base else base
     header = stem + '.h'
     allowed = {base, header}
     if 'gnu-ld' in opts:
         allowed.add('datasegments')
+    through = set()
+    for n in (base, header):
+        lp = os.path.join(outdir, n)
+        if os.path.islink(lp):
+            through.add(os.path.realpath(lp))
+    model.through = through
     return outdir, allowed, '-c' in opts
 
 
@@ -145,7 +160,11 @@ def run_one(job):
         if r.returncode != 0 and mode != 'fails':
             problems.append(('exit', 'exit status %d: %s' % (r.returncode, r.stderr.decode(errors='replace')[-200:])))
 
+        through = set(model.through)
+
         def ok_write(p):
+            if os.path.realpath(p) in through and not os.path.islink(p):
+                return True         # the target of a pre-existing link that has the name of the output file / header
             d, n = os.path.dirname(os.path.realpath(p) if os.path.exists(p) else os.path.normpath(p)), os.path.basename(p)
             rd = os.path.realpath(os.path.dirname(p))
             return rd == outdir and (n in allowed or IMPL.match(n) is not None)
